@@ -25,6 +25,14 @@ def solver_check(fn):
             if "R" not in holder or (not SA.faults and not any(o.verdict == "differs" for o in grid_obs(SA))):
                 raise
             R, tech = holder["R"], holder.get("tech", "abstract interpretation")
+        except AnalysisError as e:
+            # the property's own rules could not be evaluated; the structural rules shared by all solver properties
+            # (module state, FFT wrapper state, argument mutation, dtype / index discipline) are still decided, so a
+            # definite defect among them is reported as such and the rest as an analysis gap
+            if "R" not in holder:
+                raise
+            R, tech = holder["R"], holder.get("tech", "abstract interpretation")
+            R.add(req_ob("R-INTERP", "src/bldfm/solver.py::steady_state_transport_solver", "the property's own rules can be evaluated on the abstract solver runs", None, detail=str(e)))
         R.add(SA.fault_obs())
         R.add(grid_obs(SA))
         R.add(dtype_obs(SA))
@@ -36,6 +44,7 @@ def solver_check(fn):
         import props_state as ps
 
         R.add(ps.solve_state_obligations(P)[0])
+        R.add(ps.fft_wrapper_obligations(P))
         R.add(path_uniformity(SA))
         R.analysed["paths"] = SA.nruns
         return R, tech
